@@ -263,7 +263,7 @@ def nested_index_prog(rnd, W):
         if c == 4:
             return is_(idx('ba', T(d - 1)), 'int')
         if c == 5:
-            return is_(idx('fl', T(d - 1)), 'int')
+            return is_(idx('bits', T(d - 1)), 'int')
         if c == 6:
             return ln(idx('ws', T(d - 1)))
         if c == 7:
@@ -273,12 +273,12 @@ def nested_index_prog(rnd, W):
         if c == 9:
             return bin_('%', bin_('+', T(d - 1), T(d - 1)), I(rnd.choice((3, 4))))
         if c == 10:
-            return bin_('-', ln(rnd.choice(('ia', 'ba', 'fl', 'ws', 's'))), T(d - 1))
+            return bin_('-', ln(rnd.choice(('ia', 'ba', 'bits', 'ws', 's'))), T(d - 1))
         return is_(idx('s', T(d - 1)), 'int')
     body = [
         decl(arr('int'), 'ia', ('arr', (I(2), I(0), V('q'), I(3))), True),
         decl(arr('byte'), 'ba', ('arr', (I(1), I(2), I(0), is_(V('q'), 'byte'))), True),
-        decl(arr('bool'), 'fl', ('arr', (B(True), B(False), bin_('==', V('q'), I(1)), B(True))), True),
+        decl(arr('bool'), 'bits', ('arr', (B(True), B(False), bin_('==', V('q'), I(1)), B(True))), True),
         decl(arr('string', True), 'ws', ('arr', (S('alpha'), S('be'), S('gam'), S('d'))), True),
         decl('string', 's', S('hello')), decl('int', 'i', bin_('%', V('q'), I(4))), decl('int', 'j', I(rnd.randrange(0, 4))),
     ]
@@ -290,7 +290,7 @@ def nested_index_prog(rnd, W):
         elif c == 1:
             body += [write(idx('ia', T(d))), write(C(' '))]
         elif c == 2:
-            body.append(setv(idx('fl', T(d)), ('un', 'not', idx('fl', T(d - 1)))))
+            body.append(setv(idx('bits', T(d)), ('un', 'not', idx('bits', T(d - 1)))))
         elif c == 3:
             body.append(setv(idx('ia', T(d)), bin_('%', T(d), I(4))))
         elif c == 4:
@@ -301,7 +301,7 @@ def nested_index_prog(rnd, W):
             body += [write(bin_(rnd.choice(('+', '*', '-')), T(d), T(d))), write(C(' '))]
         else:
             body.append(setv('i', bin_('%', T(d), I(4))))
-    body += [ex(call('dump', V('ia'))), ex(call('dump', V('ba'))), ex(call('dump', V('fl')))]
+    body += [ex(call('dump', V('ia'))), ex(call('dump', V('ba'))), ex(call('dump', V('bits')))]
     fs = [('func', 'empty', 'dump', ((('arrt', el, True), 'a'),), dump_func(el)[4]) for el in ('int', 'byte', 'bool')]
     return prog([], fs + [func('empty', '@is_you', [('int', 'q')], *body)]), [str(rnd.randrange(0, 4))]
 
